@@ -484,7 +484,11 @@ def assemble(template: str, defines: set | None = None) -> Assembled:
             out_lines.extend(tl); origins.extend(orgs[:len(tl)] + [orgs[-1]] * (len(tl) - len(orgs)))
             info.out_line, info.out_end_line = start_line, len(out_lines)
             items.append(info)
-            if canary and spec.get('kind', 'fn') == 'fn' and spec.get('twin', 'yes') != 'no' and info.has_contract:
+            tw = spec.get('twin', 'yes')
+            want_twin = tw == 'yes' or (tw not in ('yes', 'no') and tw in defines)
+            cs = spec.get('canary', '')
+            info.flags['canary_self'] = bool(canary and (cs == 'self' or (cs and cs in defines)))
+            if canary and spec.get('kind', 'fn') == 'fn' and want_twin and info.has_contract:
                 text2, orgs2, info2 = build_item(spec, sections, substs, defines, log, twin=True)
                 s2l = len(out_lines) + 1
                 tl2 = text2.split('\n')
